@@ -34,6 +34,7 @@ type FuncSpec struct {
 	Header     string
 	Props      []string
 	Requires   []*Clause
+	CrashInvs  []*Clause // asserted at entry and after every call of an external function with a contract (syscall boundary)
 	Defines    []*Clause // ghost definitions: assumed at entry, not checked at call sites
 	Ensures    []*Clause
 	Canaries   []*Clause // ensures-clauses that must FAIL
@@ -98,7 +99,7 @@ func NewSpecDB() *SpecDB {
 
 var clauseKeywords = map[string]bool{
 	"property": true, "pure": true, "axiom": true, "ghost": true, "global": true, "func": true, "extern": true,
-	"fieldspec": true, "ghostset": true, "preserves": true, "define": true, "requires": true, "ensures": true, "modifies": true, "loop": true, "canary": true, "flag": true,
+	"fieldspec": true, "ghostset": true, "preserves": true, "crashinv": true, "define": true, "requires": true, "ensures": true, "modifies": true, "loop": true, "canary": true, "flag": true,
 	"inline": true, "trusted": true, "assume": true,
 }
 
@@ -390,7 +391,7 @@ func (db *SpecDB) LoadFile(file string, defaultPkg string) error {
 			}
 			db.Funcs[key] = fs
 			cur = fs
-		case "requires", "ensures", "canary", "define":
+		case "requires", "ensures", "canary", "define", "crashinv":
 			if cur == nil {
 				return errf(rc, "%s outside a func", word)
 			}
@@ -402,6 +403,8 @@ func (db *SpecDB) LoadFile(file string, defaultPkg string) error {
 				return err
 			}
 			switch word {
+			case "crashinv":
+				cur.CrashInvs = append(cur.CrashInvs, c)
 			case "define":
 				cur.Defines = append(cur.Defines, c)
 			case "requires":
